@@ -737,6 +737,9 @@ class X:
             return ("proj", inner[1], inner[2] + show_proj(proj))
         if k == "tuple" and proj[0][0] == "f" and proj[0][1] < len(inner[1]):
             return self.project(inner[1][proj[0][1]], proj[1:])
+        if k == "closure" and proj[0][0] == "f" and proj[0][1] < len(inner[2]):
+            # a captured place read back from the closure value (the body of a closure spliced into its creator, combinators.py)
+            return self.project(inner[2][proj[0][1]], proj[1:])
         if proj[0][0] == "*":
             # deref of a call result / other value: transparent
             return self.project(inner, proj[1:])
